@@ -1,30 +1,44 @@
+// vmain.cpp - entry point of a corpus binary:  <bin> dump            -> NODE/NAME/ACT/REG lines
+//                                             <bin> run <cases>     -> one RUN line per case "gid cfg hexinput"
 #include "vharness.hpp"
-std::vector< std::string > vh::inputs;
-namespace vh
+#include <fstream>
+#include <iostream>
+void register_all();
+static std::string unhex( const std::string& h )
 {
-   void gen_inputs( const std::string& alphabet, const int maxlen )
-   {
-      inputs.clear();
-      inputs.push_back( "" );
-      std::vector< std::string > cur{ "" };
-      for( int l = 1; l <= maxlen; ++l ) {
-         std::vector< std::string > nx;
-         for( const auto& p : cur ) {
-            for( const char c : alphabet ) {
-               nx.push_back( p + c );
-            }
-         }
-         for( const auto& x : nx ) {
-            inputs.push_back( x );
-         }
-         cur = nx;
-      }
+   if( h == "-" ) {
+      return "";
    }
-}  // namespace vh
-void run_all();
-int main()
+   std::string r;
+   for( std::size_t i = 0; i + 1 < h.size(); i += 2 ) {
+      r += char( std::stoi( h.substr( i, 2 ), nullptr, 16 ) );
+   }
+   return r;
+}
+int main( int argc, char** argv )
 {
-   run_all();
-   vh::print_table();
+   register_all();
+   const std::string mode = argc > 1 ? argv[ 1 ] : "dump";
+   if( mode == "dump" ) {
+      vh::print_table();
+      for( const auto& e : vh::registry() ) {
+         std::printf( "REG %d %d %s\n", e.gid, e.root, e.cfg.c_str() );
+      }
+      return 0;
+   }
+   std::map< std::pair< int, std::string >, const vh::Entry* > m;
+   for( const auto& e : vh::registry() ) {
+      m[ { e.gid, e.cfg } ] = &e;
+   }
+   std::ifstream f( argv[ 2 ] );
+   int gid;
+   std::string cfg, h;
+   while( f >> gid >> cfg >> h ) {
+      const auto it = m.find( { gid, cfg } );
+      if( it == m.end() ) {
+         continue;
+      }
+      it->second->fn( gid, it->second->root, cfg, unhex( h ) );
+   }
    return 0;
 }
